@@ -22,6 +22,8 @@ def run(ctx) -> None:
     jsonrules.rule_J1(ctx)
     jsonrules.rule_J2(ctx)
     jsonrules.rule_J6(ctx)
+    ctx.rules_run.append("K1")
+    jsonrules.rule_K1(ctx)      # what _dump_float emits reads back as the same number: specials, both zeros, whole numbers, float32 values
     ctx.rules_run += ["J7", "J8"]
     jsonrules.rule_J7(ctx)      # the rebuilt message encodes to the same bytes only if containers keep their order
     jsonrules.rule_J8(ctx)
